@@ -22,6 +22,7 @@ import (
 	pb "github.com/refraction-networking/conjure/proto"
 
 	"verif/sim"
+	"verif/sim/hook"
 )
 
 var c08Transports = []pb.TransportType{pb.TransportType_Min, pb.TransportType_Prefix, pb.TransportType_Obfs4}
@@ -55,6 +56,8 @@ type c08World struct {
 	made  []time.Time
 	news  int
 	upd   int
+	s     *hook.Sched
+	races int
 }
 
 func c08NewManager() *RegistrationManager {
@@ -193,6 +196,96 @@ func (w *c08World) sweep() bool {
 		}
 	}
 	w.r.Logf("sweep (model removes %d, keeps %d)", removed, len(w.model))
+	if removed > 0 {
+		w.r.Nontrivial()
+	}
+	return w.check("after-sweep")
+}
+
+// raceSweep runs a sweep and a connection handler (lookup, then activation) as two tasks whose
+// interleaving at the registry's lock operations the tape decides. For the connected registration
+// the legitimate outcomes depend on the order: if it was about to expire (unused, older than 10
+// minutes) either the sweep removes it entirely or the connection keeps it as a used registration;
+// everything else is judged as after an ordinary sweep.
+func (w *c08World) raceSweep(secret, tr, family int) bool {
+	now := time.Now()
+	k := c08Key{c08Phantom(secret, family).String(), tr, secret}
+	e := w.model[k]
+	w.races++
+	s := w.s
+	var found *DecoyRegistration
+	handlerDone, strictKeep := false, false
+	s.Spawn(fmt.Sprintf("sweeper%d", w.races), func() {
+		if handlerDone && found != nil {
+			strictKeep = true // the activation completed before the sweep began
+		}
+		w.rm.RemoveOldRegistrations()
+	})
+	s.Spawn(fmt.Sprintf("handler%d", w.races), func() {
+		for _, rg := range w.rm.GetRegistrations(c08Phantom(secret, family)) {
+			d := rg.(*DecoyRegistration)
+			if d.Transport == c08Transports[tr] && bytes.Equal(d.Keys.SharedSecret, c08Secret(secret)) {
+				found = d
+			}
+		}
+		if found != nil {
+			hook.Yield("matched")
+			w.rm.MarkActive(found)
+		}
+		handlerDone = true
+	})
+	st := sim.Drive(w.r, s, sim.DriveOpt{Horizon: 1000000 * time.Hour, MaxSteps: 5000})
+	if st == sim.Failed {
+		return false
+	}
+	if st == sim.Deadlock {
+		w.r.Fail("C08/deadlock", "sweep and connection handler block each other: %s", s.WaitForGraph())
+		return false
+	}
+	if st != sim.AllExited {
+		w.r.Fail("harness/c08-race", "race step did not finish: %v %v", st, s.LiveNames())
+		return false
+	}
+	w.r.Probe("sweep_raced_by_connection")
+	w.r.CoverU(s.SigHash)
+	w.r.Logf("sweep raced by connect secret=%d %s v%d -> matched=%v, still tracked=%v", secret, c08TName[tr], family, found != nil, w.implHas(k))
+	removed := 0
+	for mk, me := range w.model {
+		if w.borderline(me, now) {
+			w.r.Probe("borderline_age_at_sweep")
+			if !w.implHas(mk) {
+				delete(w.model, mk)
+			} else if mk == k && found != nil {
+				me.used = true
+			}
+			continue
+		}
+		if mk == k && e != nil && found != nil {
+			age := now.Sub(e.at)
+			switch {
+			case age > 6*time.Hour:
+				delete(w.model, mk)
+				removed++
+			case e.used || age <= 10*time.Minute || strictKeep:
+				e.used = true // not expired when the sweep looked: must be kept
+			default:
+				// about to expire while a connection arrives: the order decides
+				w.r.Probe("connection_raced_expiry")
+				w.r.Nontrivial()
+				if w.implHas(mk) {
+					e.used = true
+				} else {
+					delete(w.model, mk)
+					removed++
+				}
+			}
+			continue
+		}
+		if w.expired(me, now) {
+			delete(w.model, mk)
+			removed++
+		}
+	}
 	if removed > 0 {
 		w.r.Nontrivial()
 	}
@@ -353,11 +446,13 @@ func (w *c08World) smallOp(op int) bool {
 		w.r.Logf("advance %v", c08Deltas[2])
 	case 9:
 		return w.sweep()
+	case 10:
+		return w.raceSweep(0, 0, 4)
 	}
 	return w.check("step")
 }
 
-const c08SmallOps = 10
+const c08SmallOps = 11
 
 func TestVerifC08(t *testing.T) {
 	sim.Main(t, sim.Config{
@@ -365,7 +460,7 @@ func TestVerifC08(t *testing.T) {
 		Scenario: c08Scenario,
 		ExhaustRoots: func(tier string) [][]int {
 			// root = [mode=1, length, first op] so that the enumeration spreads over the shards
-			maxLen := 5
+			maxLen := 4
 			if tier == "thorough" {
 				maxLen = 6
 			}
@@ -378,11 +473,11 @@ func TestVerifC08(t *testing.T) {
 			return roots
 		},
 		ExhaustMax: map[string]int{"quick": 200000, "thorough": 2000000},
-		Runs:       map[string]int{"quick": 4000, "thorough": 400000},
+		Runs:       map[string]int{"quick": 8000, "thorough": 400000},
 		NoCrypto:   true,
 		Real:       []string{"RegistrationManager.TrackRegistration / AddRegistration / GetRegistrations / MarkActive / RemoveOldRegistrations", "RegisteredDecoys (both maps, expiry rule)", "min / prefix / obfs4 GetIdentifier, core.GenSharedKeys"},
-		Stub:       []string{"wall clock (synctest bubble)", "detector announcements (recording functions)"},
-		Rule: "systematic: every history of length 1..5 (thorough: 6) over a 10-operation alphabet {register+validate (s0,min,v4) / (s0,prefix,v4) / (s1,min,v4), register (s0,min,v6), connect x2, advance 9m59s / 5h59m / 3m, sweep}; random: histories up to length 200 over 3 secrets x 3 transports x 2 families with duplicates, unvalidated registrations and 7 time steps. " +
+		Stub:       []string{"wall clock (synctest bubble)", "detector announcements (recording functions)", "goroutine scheduling and the registry mutex during the raced sweep (simulator)"},
+		Rule: "systematic: every history of length 1..4 (thorough: 1..6, bounded per root) over an 11-operation alphabet {register+validate (s0,min,v4) / (s0,prefix,v4) / (s1,min,v4), register (s0,min,v6), connect x2, advance 9m59s / 5h59m / 3m, sweep, sweep raced by a connection handler (two tasks, interleavings at the registry's lock operations chosen by the tape; systematic part: at most 2 preemptions per history)}; random: histories up to length 200 over 3 secrets x 3 transports x 2 families with duplicates, unvalidated registrations and 7 time steps. " +
 			"The implementation's tracked set is compared with the reference model after every operation (exactly after a sweep). non-trivial = a sweep removed at least one model entry; distinct = distinct histories (hash of the operation sequence)",
 		Assume: []string{"ages are kept at least 1 ms away from the 10 min / 6 h thresholds, so > versus >= is never decisive"},
 	})
@@ -390,10 +485,15 @@ func TestVerifC08(t *testing.T) {
 
 func c08Scenario(r *sim.Run) {
 	tp := r.Tape
-	w := &c08World{r: r, rm: c08NewManager(), model: map[c08Key]*c08Entry{}}
+	s := hook.Install(tp)
+	defer s.Uninstall()
+	defer s.Finish()
+	s.LockYield = true
+	w := &c08World{r: r, rm: c08NewManager(), model: map[c08Key]*c08Entry{}, s: s}
 	w.rm.registeredDecoys.registerForDetector = func(*DecoyRegistration) { w.news++ }
 	w.rm.registeredDecoys.updateInDetector = func(*DecoyRegistration) { w.upd++ }
 	if tp.Choose("mode", 2) == 1 {
+		s.MaxPreempt = 2 // systematic histories: every schedule of a raced sweep with at most 2 preemptions
 		n := tp.Choose("len", 8)
 		for i := 0; i < n; i++ {
 			op := tp.Choose("op", c08SmallOps)
@@ -408,9 +508,15 @@ func c08Scenario(r *sim.Run) {
 	}
 	n := 1 + tp.Choose("len", 200)
 	for i := 0; i < n; i++ {
-		k := tp.Choose("kind", 10)
+		k := tp.Choose("kind", 11)
 		r.CoverU(uint64(k))
 		switch {
+		case k == 10:
+			sc, tr, f := tp.Choose("secret", 3), tp.Choose("transport", 3), 4+2*tp.Choose("family", 2)
+			if !w.raceSweep(sc, tr, f) {
+				return
+			}
+			continue
 		case k < 3:
 			s, tr, f := tp.Choose("secret", 3), tp.Choose("transport", 3), 4+2*tp.Choose("family", 2)
 			r.CoverU(uint64(s*100 + tr*10 + f))
